@@ -1,6 +1,7 @@
 mod decode;
 mod exec;
 mod gen_c07;
+mod gen_instr;
 mod gen_mem;
 mod gen_prog;
 mod util;
@@ -15,6 +16,12 @@ fn main() {
             let seed: u64 = args.get(4).and_then(|s| s.parse().ok()).unwrap_or(1);
             let mut out: Vec<String> = Vec::new();
             match prop.as_str() {
+                "C01" => gen_instr::gen(&[gen_instr::Class::Data, gen_instr::Class::Lea, gen_instr::Class::Os], tier, seed, 6, 40, &mut out),
+                "C02" => gen_instr::gen(&[gen_instr::Class::Data, gen_instr::Class::Lea, gen_instr::Class::Stack, gen_instr::Class::Branch], tier, seed ^ 0x202, 5, 40, &mut out),
+                "C03" => gen_instr::gen(&[gen_instr::Class::Branch], tier, seed, 30, 300, &mut out),
+                "C04" => gen_instr::gen(&[gen_instr::Class::Stack], tier, seed, 40, 400, &mut out),
+                "C05" => gen_instr::gen_filtered(&[gen_instr::Class::Lea, gen_instr::Class::Data], tier, seed ^ 0x505, 6, 40, true, &mut out),
+                "C06" => gen_instr::gen(&[gen_instr::Class::Data], tier, seed ^ 0x606, 6, 40, &mut out),
                 "C07" => gen_c07::gen(tier, seed, &mut out),
                 "C08" => gen_mem::gen_c08(tier, seed, &mut out),
                 "C09" => gen_mem::gen_c09(tier, seed, &mut out),
